@@ -1,2 +1,3 @@
 pub mod cal;
 pub mod tl;
+pub mod fmt;
